@@ -90,7 +90,7 @@ func atomIndexLess(v, x ssa.Value) *Atom {
 			return 0, 0
 		}
 		// normalise to  v op len(x)
-		if l, isLen := LenOf(a); isLen && Same(l, x) && StripConv(b) == StripConv(v) {
+		if StripConv(b) == StripConv(v) && StripConv(a) != StripConv(v) {
 			a, b = b, a
 			op = Swap(op)
 		}
